@@ -4,7 +4,8 @@
    C02_commit_spec over the command model is in this file's second part. *)
 From Coq Require Import Strings.String Strings.Byte.
 From Coq Require Import List NArith ZArith.
-From Goit Require Import Bytes Sha1 Obj Tree Commit BytesFacts ObjFacts TreeFacts CommitFacts.
+From Goit Require Import Bytes Sha1 Obj Tree Index Commit Config World Repo BytesFacts ObjFacts TreeFacts CommitFacts.
+From Goit Require Import BranchFacts ExactFacts CommitCmdFacts.
 Import ListNotations.
 
 Definition holds (st : store) (ds : list bytes) : Prop :=
@@ -33,5 +34,58 @@ Theorem C02_commit_text_reads_back : forall tree parent n e t off msg,
   = Some (mkCommit tree (parent_list parent) (Some (mkSign n e t off)) (Some (mkSign n e t off)) msg).
 Proof. intros. now apply commit_roundtrip. Qed.
 
+
+(* ---------- Part 2: the command ---------- *)
+(* C02_commit_spec: a `commit` that passes its gate, on ANY world, is exactly:
+   the tree objects of the staging area (children first), the commit object,
+   the branch file, two journal lines, HEAD rewritten with the same name; and
+   in the world after it ([commit_post]):
+   - the current branch names the new commit, every other branch is unchanged,
+     HEAD still names the same branch, the staging area, every working file and
+     both config files are unchanged;
+   - the new commit reads back with tree = the written root, parents = [the
+     previous tip] (none for the first commit), author = committer;
+   - without a flagged collision every object stored before is kept, and the
+     new commit's snapshot, read by the independent reader, is exactly the
+     staging area at that moment. *)
+Theorem C02_commit_spec : forall e msg w c root subs cm,
+  w_inited w = true -> ctx_of w = Some c -> gate_open w c ->
+  (tip_of w = None -> valid_branch_name (w_head w) = true) ->
+  Forall valid_entry (idx_of w) -> write_tree_top (idx_of w) = Some (root, subs) ->
+  (forall d, In d (subs ++ [root]) -> (lenN d < 2 ^ 63)%N) ->
+  (lenN (commit_data e c msg w root) < 2 ^ 63)%N ->
+  parse_commit (commit_data e c msg w root) = Some cm -> ~ In c_nl (commit_sign e c) ->
+  let w' := after_commit e c msg w root subs in
+  step (ACmd e (CCommit msg)) w = (w', OOk [], do_commit_trace e c msg w root subs) /\
+  commit_post e c msg w root cm w'.
+Proof. exact commit_step_spec. Qed.
+
+(* with an identity and a message in the domain of C12 the recorded author and
+   committer are the configured identity and the recorded message is the message given *)
+Theorem C02_commit_records_identity_and_message : forall e c msg w root subs,
+  Forall valid_entry (idx_of w) -> write_tree_top (idx_of w) = Some (root, subs) ->
+  (forall d, In d (subs ++ [root]) -> (lenN d < 2 ^ 63)%N) ->
+  (lenN (commit_data e c msg w root) < 2 ^ 63)%N ->
+  sign_ok (user_name (x_l c) (x_g c)) (user_email (x_l c) (x_g c)) (e_time e) (e_off e) -> msg_ok msg ->
+  (forall tip, tip_of w = Some tip -> length tip = 20%nat) -> head_ok w c ->
+  let tr := do_commit_trace e c msg w root subs in
+  let w' := after_commit e c msg w root subs in
+  run_m (do_commit e c msg) w = (Ok tt, w', tr) /\ commit_post e c msg w root (commit_of e c msg w root) w' /\
+  c_msg (commit_of e c msg w root) = msg.
+Proof. exact commit_spec_ok. Qed.
+
+(* the effect order: objects before the branch that names them, HEAD last *)
+Theorem C02_commit_effect_order : forall e c msg w root subs,
+  do_commit_trace e c msg w root subs
+  = map put_tree_eff (subs ++ [root])
+    ++ [EPutObj (commit_id e c msg w root) (payload KCommit (commit_data e c msg w root));
+        ESetRef (w_head w) (commit_id e c msg w root);
+        EAppendHlog (commit_line e c msg w root); EAppendBlog (w_head w) (commit_line e c msg w root);
+        ESetHead (w_head w)].
+Proof. reflexivity. Qed.
+
 Print Assumptions C02_snapshot_is_staging_area.
 Print Assumptions C02_commit_text_reads_back.
+Print Assumptions C02_commit_spec.
+Print Assumptions C02_commit_records_identity_and_message.
+Print Assumptions C02_commit_effect_order.
